@@ -6,7 +6,7 @@ use dashmap::DashSet;
 pub(crate) use database::{ActiveInputSessionGuard, QueryDebug};
 pub use input_session::{InputSession, SetInputResult};
 #[cfg(qbice_verif)]
-pub use database::CompressedBackwardEdgeSet;
+pub use database::{CompressedBackwardEdgeSet, VerifNodeDump};
 #[cfg(qbice_verif)]
 pub use query_lock_manager::{
     OwnedLock, QueryLock, QueryLockManager as VerifQueryLockManager,
